@@ -1,4 +1,4 @@
 (** Extraction of the session engine. Directives: ExtrOcamlBasic only. *)
 From Coq Require Import ExtrOcamlBasic.
-From Qv Require Import Common.Bytes Model.NetRead Model.Session.
-Extraction "m.ml" run_session.
+From Qv Require Import Common.Bytes Model.NetRead Model.Session Spec.SessionSpec.
+Extraction "m.ml" run_session trace_run queue_run a_init.
